@@ -271,7 +271,8 @@ pub fn ping_race(seed: u64, idx: u64) -> Case {
     let workers = rng.range(2, 8) as usize;
     let conns = rng.range(2, 12) as usize;
     let tasks = rng.range(conns as u64, 2 * conns as u64) as usize;
-    let rounds = rng.range(200, 1500) as usize;
+    // the first case of every run is a long one: more than 2^16 recycles on one pool (a counter that wraps early)
+    let rounds = if idx == 0 { 70_000 / tasks + 1 } else { rng.range(200, 1500) as usize };
     let config_desc = format!("ping race: worker_threads={} max_size={} tasks={} rounds={}", workers, conns, tasks, rounds);
     let rt = tokio::runtime::Builder::new_multi_thread().worker_threads(workers).enable_all().build().expect("rt");
     let mut viol: Vec<Violation> = Vec::new();
